@@ -8,8 +8,22 @@ from .._change import Replace
 from .._global_state import state
 from .._sentinels import undefined
 from .._utils import value_to_token
+from .._adapter.adapter import adapter_map
+from .._unmanaged import Unmanaged
 from .generic_value import GenericValue
 from .generic_value import clone
+
+
+def contains_unmanaged(value):
+    found = []
+
+    def check(v):
+        if isinstance(v, Unmanaged):
+            found.append(v)
+        return v
+
+    adapter_map(value, check)
+    return bool(found)
 
 
 class CollectionValue(GenericValue):
@@ -53,6 +67,10 @@ class CollectionValue(GenericValue):
                     node=old_node,
                     old_value=old_value,
                 )
+                continue
+
+            if contains_unmanaged(old_value):
+                # Is(...) and similar parts are controlled by the user
                 continue
 
             # check for update
